@@ -88,3 +88,149 @@ def diag(ch, n, kind, off=0):
     if kind == '/':
         return [' ' * (off + n - 1 - i) + ch for i in range(n)]
     return [' ' * (off + i) + ch for i in range(n)]
+
+
+# -------------------------------------------------------------------------------------------------
+# a mixed corpus of legend-free diagrams
+
+_BUNDLED_CACHE = {}
+
+
+def _bundled_cached():
+    if 'b' not in _BUNDLED_CACHE:
+        _BUNDLED_CACHE['b'] = bundled(strip_legend=True)
+    return _BUNDLED_CACHE['b']
+
+
+ARROWS_R = '>▶▸►'
+ARROWS_L = '<◀◂◄'
+ARROWS_D = 'vV▼▾'
+ARROWS_U = '^▲▴'
+
+
+def diagram(rng, circles, allow_quotes=False, allow_braces=False, small=False):
+    """(kind, rows) - rows never contain a legend; quotes/braces only when allowed"""
+    q = rng.random()
+    if q < 0.45:
+        alpha = rng.choice([FULL, ASCII_DRAW + 'ab', ASCII_DRAW + UNI_DRAW + UNI_MORE + 'abé日', "-|+.'`,/\\ab", "()_-.'`,/\\|"])
+        if allow_braces:
+            alpha += '{}'
+        rows = random_grid(rng, alpha, wmax=10 if small else 16, hmax=6 if small else 8)
+        kind = 'grid'
+    elif q < 0.6:
+        name, rows = rng.choice(_bundled_cached())
+        rows = blocks_of(rows, rng, h=rng.choice([4, 8] if small else [6, 12]), w=rng.choice([20, 40] if small else [30, 60]))
+        if not allow_quotes:
+            rows = [r.replace('"', "'") for r in rows]
+        if not allow_braces:
+            rows = [r.replace('{', '(').replace('}', ')') for r in rows]
+        kind = 'bundled'
+    elif q < 0.75:
+        st = BOX_STYLES[rng.choice(list(BOX_STYLES))]
+        w = rng.randint(1, 12)
+        h = rng.randint(0, 5)
+        inner = {}
+        if h and w >= 4 and rng.random() < 0.5:
+            inner[rng.randrange(h)] = ' ' + rng.choice(['ab', 'hi', 'k9'])[:w - 2]
+        rows = box(w, h, inner=inner, **st)
+        kind = 'box'
+    elif q < 0.87 and circles:
+        rows = list(rng.choice(circles))
+        kind = 'circle'
+    elif q < 0.94:
+        n = rng.choice([2, 5, 9, 10, 12, 15, 20, 33, 60] if not small else [2, 5, 9, 12])
+        ch = rng.choice('/\\╱╲')
+        rows = diag(ch, n, '/' if ch in '/╱' else '\\')
+        kind = 'diagonal'
+    else:
+        n = rng.randint(1, 12)
+        g = rng.randrange(6)
+        if g == 0:
+            rows = ['-' * n + rng.choice(ARROWS_R)]
+        elif g == 1:
+            rows = [rng.choice(ARROWS_L) + '-' * n]
+        elif g == 2:
+            rows = ['|'] * n + [rng.choice(ARROWS_D)]
+        elif g == 3:
+            rows = [rng.choice(ARROWS_U)] + ['|'] * n
+        elif g == 4:
+            rows = [rng.choice('*oO') + '-' * n + rng.choice('*oO')]
+        else:
+            rows = diag('\\', n, '\\') + [' ' * n + rng.choice('vV')]
+        kind = 'arrow'
+    rows = [r.rstrip() for r in rows]
+    if not ordinary_cells(rows):
+        # at least one ordinary cell: an empty drawing has no position
+        rows = ['+']
+    if allow_quotes and rng.random() < 0.3 and rows:
+        y = rng.randrange(len(rows))
+        rows = list(rows)
+        rows[y] = rows[y] + ' "' + rng.choice(['q', 'a-b', '<&>', '|+|', '日本', 'é']) + '"'
+    return kind, rows
+
+
+def kinds_in(scene):
+    """tags for the coverage counters: which element kinds a scene contains (grouped or not)"""
+    out = set()
+    for e, ing in scene.flat():
+        out.add(('g_' if ing else '') + e[0])
+        if e[0] == 'line' and any('marked' in c for c in e[1]):
+            out.add('marker_line')
+    return out
+
+
+# -------------------------------------------------------------------------------------------------
+# the layout rules of the input text, as documented: display columns and quoted segments
+
+RUST_WS = set(map(chr, list(range(9, 14)) + [0x20, 0x85, 0xa0, 0x1680] + list(range(0x2000, 0x200b)) + [0x2028, 0x2029, 0x202f, 0x205f, 0x3000]))
+
+
+def columns(row):
+    """the characters of a row by display column, a double-width character is followed by a NUL filler"""
+    out = []
+    for ch in row:
+        out.append(ch)
+        if cw(ch) == 2:
+            out.append('\0')
+    return out
+
+
+def quoted_segments(cols):
+    """(open, close) column pairs of the "quoted" segments of a row; \\" does not close a segment"""
+    out = []
+    i = 0
+    n = len(cols)
+    while True:
+        j = i
+        while j < n and cols[j] != '"':
+            j += 1
+        if j >= n:
+            break
+        k = j + 1
+        while k < n:
+            if cols[k] == '\\' and k + 1 < n and cols[k + 1] == '"':
+                k += 2
+            elif cols[k] != '"':
+                k += 1
+            else:
+                break
+        if k >= n:
+            break
+        out.append((j, k))
+        i = k + 1
+    return out
+
+
+def ordinary_cells(rows):
+    """(column, row, char) of every non-blank character outside quoted segments"""
+    out = []
+    for y, row in enumerate(rows):
+        cols = columns(row)
+        segs = quoted_segments(cols)
+        inq = set()
+        for a, b in segs:
+            inq.update(range(a, b + 1))
+        for x, ch in enumerate(cols):
+            if x not in inq and ch != '\0' and ch not in RUST_WS:
+                out.append((x, y, ch))
+    return out
